@@ -86,6 +86,16 @@ def main():
   import warnings
   warnings.simplefilter('ignore')
   zstats = _install_z3_timer()
+  try:
+    # warm the jit caches of the few real jax.random calls flax makes on concrete
+    # keys: under the symbolic tracer they only work from a warm cache
+    import jax
+    k = jax.random.key(0)
+    jax.random.fold_in(k, 1)
+    jax.random.key_data(k)
+    jax.random.split(k, 2)
+  except Exception:
+    pass
   rd = os.fdopen(int(sys.argv[1]), 'r')
   wr = os.fdopen(int(sys.argv[2]), 'w')
   for line in rd:
